@@ -58,3 +58,11 @@ namespace usa_uses {
 // positive control of LEAF-3 (zero expected matches in the library): the const-drop detector must report this cast on every run
 std::byte* usa_control_const_drop(const std::byte* p) { return const_cast<std::byte*>(p); }
 }  // namespace usa_uses
+namespace usa_uses {
+// thread start is one of the operations of C08: instantiate the thread factory
+inline void use_qsbr_thread() {
+  unodb::qsbr_thread t{[] {}};
+  t.join();
+}
+void (*use_qsbr_thread_ref)() = &use_qsbr_thread;
+}  // namespace usa_uses
